@@ -17,7 +17,9 @@ impl Serialize for TimeStamp {
     where
         S: Serializer,
     {
-        let form = self.0.to_rfc3339_opts(SecondsFormat::Secs, true);
+        // keep sub-second digits when there are any, so that a serialised
+        // timestamp parses back to the same instant
+        let form = self.0.to_rfc3339_opts(SecondsFormat::AutoSi, true);
         form.serialize(ser)
     }
 }
@@ -26,8 +28,8 @@ impl<'de> Deserialize<'de> for TimeStamp {
     fn deserialize<D: Deserializer<'de>>(
         de: D,
     ) -> ::std::result::Result<Self, D::Error> {
-        let form: &str = Deserialize::deserialize(de)?;
-        DateTime::parse_from_rfc3339(form)
+        let form: String = Deserialize::deserialize(de)?;
+        DateTime::parse_from_rfc3339(&form)
             .map(TimeStamp)
             .map_err(|e| DeserializeError::custom(format!("{:?}", e)))
     }
